@@ -252,7 +252,7 @@ CreateOn(t, c, o) ==
               /\ fr' = Append(fr, r[2])
               /\ UNCHANGED <<busy, pc>>
 
-Create(t, c) == CreateOn(t, c, 1)
+Create(t, c) == objs[1].st = "live" /\ CreateOn(t, c, 1)
 CreateB(t, c) == Movable /\ CreateOn(t, c, 2)      \* a frame on the second storage object
 
 (* an operator new call of the storage (grain "alloc") *)
